@@ -359,13 +359,32 @@ def triage(prop, total, minimise_budget=45.0, max_reports=6):
             signal.alarm(int(minimise_budget * 6) + 120)
             try:
                 m = in_scratch(work)
+            except HarnessError as e:
+                m = None
+                total["harness_errors"].append({"run": v["run"], "seed": v["seed"], "error": f"minimisation failed: {e}"})
             finally:
                 signal.alarm(0)
                 signal.signal(signal.SIGALRM, old_handler)
             if m is None:
-                total["harness_errors"].append({"run": v["run"], "seed": v["seed"],
-                                                "error": f"violation {v['violation']['signature']} did not reproduce on re-run"})
-                continue
+                # Not reproduced in this (long-lived) process.  Before calling it nondeterminism, run the very same
+                # (spec, seed) once more in a pristine forked child, the way a worker ran it.
+                def again(v=v):
+                    d = tempfile.mkdtemp(prefix="again-", dir=make_scratch())
+                    os.chdir(d)
+                    if hasattr(mod, "worker_init"):
+                        mod.worker_init(d)
+                    rr = mod.run(v["spec"], Decider(seed=v["seed"]))
+                    return {"violation": rr.violation, "decisions": rr.decisions, "digest": rr.digest}
+
+                kind, val = fork_call(again, timeout=300)
+                if kind == "ok" and val["violation"] is not None and val["violation"]["clause"] == v["violation"]["clause"]:
+                    m = {"spec": v["spec"], "seed": v["seed"], "decisions": val["decisions"], "violation": val["violation"],
+                         "digest": val["digest"], "minimise_runs": 0, "not_minimised": True}
+                    total["harness_errors"].append({"run": v["run"], "seed": v["seed"], "error": "violation reproduces in a fresh child but not in the triage process (reported unminimised)"})
+                else:
+                    total["harness_errors"].append({"run": v["run"], "seed": v["seed"],
+                                                    "error": f"violation {v['violation']['signature']} did not reproduce on re-run ({kind})"})
+                    continue
             msig = m["violation"]["signature"]
             kmatch = match_known(kf, msig)
             if kmatch is not None:
